@@ -29,6 +29,9 @@ def check(repo: Repo, rep, tier):
     from .C13 import storage_no_cache
 
     storage_no_cache(repo, rep)
+    from .C13 import persist_remove
+
+    persist_remove(repo, rep)
 
 
 def _calls_of(f, cfg, cg, key):
